@@ -27,6 +27,8 @@ TRANSPARENT_ARG0 = {
     'from_felt_unchecked', 'into_boxed_slice', 'into_vec', 'as_ptr', 'finalize', 'to_string', 'as_str',
     'as_bytes', 'from_bytes_be_slice', 'from_bytes_be', 'peekable', 'by_ref',
     'box_assume_init_into_vec_unsafe', 'new_uninit', 'write', 'assume_init', 'collect',
+    # views of a slice carry the slice's leaves (halves of split_at: same contents, a part of the length)
+    'split_at', 'split_at_mut',
 }
 ELEMENT_OF_ARG0 = {'get', 'get_mut', 'index', 'index_mut', 'first', 'last', 'next', 'first_mut',
                    'last_mut', 'get_unchecked', 'pop', 'remove', 'drain', 'nth', 'peek', 'next_back'}
@@ -658,8 +660,9 @@ class Flow:
                 s |= self.operand_leaves(o)
                 ch |= len(s) != n0
                 ch |= self._merge_agg(r, n + '.', self._agg_of_operand(o))
-        elif rv['k'] in ('use', 'ref') and not place['p']:
-            src = rv['a'] if rv['k'] == 'use' else {'cp': rv['place']}
+        elif (rv['k'] in ('use', 'ref') or (rv['k'] == 'cast' and 'Unsize' in rv.get('ck', ''))) and not place['p']:
+            # (&[T; N] -> &[T] is the same rows: a literal table walked through .iter() keeps them apart)
+            src = {'cp': rv['place']} if rv['k'] == 'ref' else rv['a']
             sub = self._agg_of_operand(src)
             if sub:
                 rd = self.find(place['l'])
